@@ -102,6 +102,14 @@ func zzRequest(method string, params interface{}) jsonrpc2.Request {
 	return jsonrpc2.Request{Method: method, Params: &raw}
 }
 
+// zzLspRange: LSP positions are (line, character), both zero-based, as in the parser's ranges.
+func zzLspRange(r parser.Range) Range {
+	return Range{
+		Start: Position{Line: uint32(r.Start.Line), Character: uint32(r.Start.Character)},
+		End:   Position{Line: uint32(r.End.Line), Character: uint32(r.End.Character)},
+	}
+}
+
 func zzSameRange(a, b Range) bool {
 	return zzvrt.And(zzvrt.And(a.Start.Line == b.Start.Line, a.Start.Character == b.Start.Character),
 		zzvrt.And(a.End.Line == b.End.Line, a.End.Character == b.End.Character))
@@ -113,9 +121,9 @@ func zzSameDiagnostics(got []Diagnostic, want []analysis.Diagnostic, id string) 
 		return
 	}
 	for i, w := range want {
-		l := toLspDiagnostic(w)
-		zzvrt.Assert(zzSameRange(got[i].Range, l.Range), id)
-		zzvrt.Assert(got[i].Severity == l.Severity && got[i].Message == l.Message, id)
+		// the expected LSP form is computed here, not with the server's own converters
+		zzvrt.Assert(zzSameRange(got[i].Range, zzLspRange(w.Range)), id)
+		zzvrt.Assert(got[i].Severity == DiagnosticSeverity(w.Kind.Severity()) && got[i].Message == w.Kind.Message(), id)
 	}
 }
 
@@ -239,7 +247,7 @@ func ZZC19Step(pre, method, uriIdx, textIdx, text2Idx string) {
 			zzSameDiagnostics(func() []Diagnostic {
 				var out []Diagnostic
 				for _, x := range d.CheckResult.Diagnostics {
-					out = append(out, toLspDiagnostic(x))
+					out = append(out, Diagnostic{Range: zzLspRange(x.Range), Severity: DiagnosticSeverity(x.Kind.Severity()), Message: x.Kind.Message()})
 				}
 				return out
 			}(), analysis.CheckSource(t).Diagnostics, "C19:stored-analysis-is-of-the-latest-text")
@@ -308,12 +316,12 @@ func ZZC19Nav(textIdx string) {
 		want := "```numscript\n$" + u.Name + ": " + d.Type.Name + "\n```"
 		okHover := hover != nil && hover.Contents.Value == want
 		if okHover {
-			okHover = zzvrt.And(zzSameRange(hover.Range, toLspRange(u.Range)), true)
+			okHover = zzvrt.And(zzSameRange(hover.Range, zzLspRange(u.Range)), true)
 		}
 		zzvrt.Assert(zzvrt.Implies(inside(u.Range), okHover), "C19:hover-inside-a-variable-use-names-it-and-its-type")
 		okDef := loc != nil && loc.URI == uri
 		if okDef {
-			okDef = zzSameRange(loc.Range, toLspRange(d.Name.Range))
+			okDef = zzSameRange(loc.Range, zzLspRange(d.Name.Range))
 		}
 		zzvrt.Assert(zzvrt.Implies(inside(u.Range), okDef), "C19:definition-inside-a-variable-use-is-its-declaration")
 	}
@@ -327,5 +335,23 @@ func ZZC19Nav(textIdx string) {
 		zzvrt.Assert(zzvrt.Implies(inside(f.Caller.Range), okFn), "C19:hover-on-a-builtin-shows-that-function")
 	}
 	zzvrt.Assert(zzvrt.Implies(zzvrt.Not(anywhere), hover == nil && loc == nil), "C19:nothing-elsewhere")
+	// document symbols: one per distinct declared variable, with its type and the range of its name
+	var sy any
+	_ = zzNotifications(func() {
+		sy = Handle(zzRequest("textDocument/documentSymbol", DocumentSymbolParams{TextDocument: TextDocumentIdentifier{URI: uri}}), &state)
+	})
+	syms, _ := sy.([]DocumentSymbol)
+	zzvrt.Assert(len(syms) == len(decls), "C19:one-symbol-per-declared-variable")
+	for name, d := range decls {
+		found := false
+		for _, s := range syms {
+			if s.Name == name && s.Detail == d.Type.Name && s.Kind == 13 {
+				if zzSameRange(s.Range, zzLspRange(d.Name.Range)) && zzSameRange(s.SelectionRange, zzLspRange(d.Name.Range)) {
+					found = true
+				}
+			}
+		}
+		zzvrt.Assert(found, "C19:symbol-names-the-declaration")
+	}
 	zzvrt.Reach("c19-nav-end")
 }
